@@ -993,7 +993,8 @@ def decscale_rule(ctx):
             inl = lambda bb_: any(bb_ in blk_ for blk_ in lp_.values())
             scans = [d for d in defaults if inl(d[2])]
             keeps = [d for d in defaults if not inl(d[2])]
-            paired = bool(scans) and len(scans) == len(keeps) and all(d[1] in (['False'], ['false'], ['0']) for d in scans) and \
+            # (a keep-one-byte test written as a `match` on buf.get(..) is another idiom: not judged here)
+            paired = bool(scans) and len(keeps) <= len(scans) and all(d[1] in (['False'], ['false'], ['0']) for d in scans) and \
                 all(d[1] in (['True'], ['true'], ['1']) for d in keeps)
             ctx.ob('DECSCALE', 'serialize/truncation-keeps-a-byte-at-end/per-sign', paired, short_loc(h.span),
                    'scan loops (end-of-buffer default false): %d; keep-one-byte tests after them (default true): %d of %d' % (
@@ -1010,7 +1011,7 @@ def decscale_rule(ctx):
             counters = {pl['l'] for _, _, pl in adds + subs if pl is not None and not pl.get('p')}
             steps_ok = len(counters) == 1 and bool(adds) and all(c_ == 1 for _, c_, _ in adds + subs) and \
                 all(sum(1 for bb_, _, _ in adds if bb_ in blk_) == 1 for blk_ in lp_.values()) and all(inl(bb_) for bb_, _, _ in adds)
-            back_ok = len(subs) == len(keeps) and all(
+            back_ok = bool(subs) and len(subs) == len(lp_) and all(
                 any(g_['op'] in ('Ne', 'Gt') and g_['r'].consts() == {0} and not g_['r'].params() and not g_['l'].params() and not g_['l'].fields and
                     not g_['l'].call_names() and g_['l'].consts() <= {0, 1} for g_ in cmp_guards(h, bb_))
                 for bb_, _, _ in subs)
